@@ -500,6 +500,24 @@ pub fn c17(tier: Tier) -> i32 {
                 }
             }
         }
+        // ... nor under the same 32 bytes in the other byte order (the id as printed), nor under ids sharing its first / last 16 bytes
+        {
+            let b = k.to_byte_array();
+            let mut rev = b;
+            rev.reverse();
+            let mut same_prefix = b;
+            same_prefix[31] ^= 0x01;
+            let mut same_suffix = b;
+            same_suffix[0] ^= 0x01;
+            for (name, other) in [("byte-reversed", rev), ("same-first-31-bytes", same_prefix), ("same-last-31-bytes", same_suffix)] {
+                if other != b {
+                    n += 1;
+                    if cryptography::decrypt(&ct, &Txid::from_byte_array(other)).is_ok() {
+                        v.push(("decrypts-under-other-id".into(), format!("ciphertext for id #{ki} decrypts under the {name} id")));
+                    }
+                }
+            }
+        }
         // every single-bit flip (quick: every bit of a spread of bytes; thorough: every bit)
         let step = if tier == Tier::Quick { 5 } else { 1 };
         let mut i = 0;
@@ -566,13 +584,18 @@ pub fn c17(tier: Tier) -> i32 {
     }
     // signatures
     let secp = Secp256k1::new();
-    let keys: Vec<(SecretKey, PublicKey)> = [0xa1u8, 0xb2, 0xc3, 0xd4]
+    let mut keys: Vec<(SecretKey, PublicKey)> = [0xa1u8, 0xb2, 0xc3, 0xd4]
         .iter()
         .map(|b| {
             let sk = SecretKey::from_slice(&[*b; 32]).unwrap();
             (sk, PublicKey::from_secret_key(&secp, &sk))
         })
         .collect();
+    // and the negation of the first key: another signer whose public key differs in the parity byte only
+    {
+        let sk = keys[0].0.negate();
+        keys.push((sk, PublicKey::from_secret_key(&secp, &sk)));
+    }
     let msgs: Vec<Vec<u8>> = vec![
         vec![],
         b"get subscription info".to_vec(),
